@@ -1035,6 +1035,10 @@ class Sim:
                             and v.target not in ev['after'][v.jobid][1]):
                         v.lost = True
                         self.lost_keys.add(v.key)
+                        # purge leaves the job of an executing unit in the
+                        # queue (its reply is looked up there)
+                        if not any(j.tag == v.jobid for j in self.sched.que):
+                            ev.setdefault('purged_unqueued', []).append(v)
         live = {u.key for u in self.units if not u.answered}
         self.lost_keys &= live | (
             {ev['unit'].key} if ev.get('unit') is not None else set()
